@@ -75,8 +75,8 @@ def search(ctx):
 
 SPEC = {
     "id": "C14",
-    "gens": ["SourceMapTables", "LexTables"],
-    "lean_modules": ["RsslVerif.Thm.C14"],
+    "gens": ["SourceMapTables", "LexTables", "MacroTables"],
+    "lean_modules": ["RsslVerif.Thm.C14", "RsslVerif.Thm.C12Boundary"],
     "theorems": [T + n for n in [
         "tables_as_modelled", "insert_shift", "line_shift", "line_shift_before", "inline_trivia_shift",
         "lineCol_injective", "lineCol_bounds", "applyEdits_tracks", "include_location", "include_independent_of_includer",
@@ -88,7 +88,11 @@ SPEC = {
         "trivia_insensitive_if", "trivia_insensitive_rejected_if", "trivia_lexers_as_modelled",
         "trivia_insensitive_lexer", "trivia_insensitive_lexer_rejected", "lexer_failure_moves",
         "lexer_side_conditions_needed", "preprocess_trivia_insensitive_partial",
-        "commandline_defines_as_modelled", "commandline_defines_location"]] + [
+        "commandline_defines_as_modelled", "commandline_defines_location",
+        "macro_resume_as_modelled", "skipAllWs_ws", "scanFrom_skip", "resume_at_region_start_finds_trailing_name",
+        "resume_at_region_end_linebreak_witness"]] + [
+        # C12's theorem on higher-order invocations (what C14 takes from it: Thm/C14.lean, Part 3b)
+        "RsslVerif.Thm.C12.agrees_on_higher_order_invocation",
         # the lemma the lexer theorem rests on (Lemmas/LexStableTok.lean) and the three facts about the concrete lexer
         "RsslVerif.Lemmas.LexStable.tokenIntermediate_stable", "RsslVerif.Lemmas.TriviaLexer.triviaText_lexesAs",
         "RsslVerif.Lemmas.TriviaLexer.adjacent", "RsslVerif.Lemmas.TriviaLexer.distant"],
@@ -105,7 +109,13 @@ SPEC = {
             "(errors inside macro expansions, notes across files, file shapes: no final newline, #include on the last line, "
             "empty files, CRLF, tabs and UTF-8, splices, bytes that are not white space, trivia next to #, ##, <, >; every "
             "spelling of the defined operator; directives that do nothing or sit in skipped blocks, invalid parameter lists, "
-            "header names that wrap; uncalled / mutually recursive / nested function-like macros; programs compiled with "
+            "header names that wrap; uncalled / mutually recursive / nested function-like macros; higher-order macro "
+            "programs (lt_higher_order: a function-like macro name passed as first / last argument and invoked by the text "
+            "behind the outer invocation, SELECT(INC)(b), through two levels, nested, through an object-like alias, by the "
+            "replacement list, some already written over several lines) with the invocation sweep: EVERY boundary inside a "
+            "macro invocation (between name and (, after (, around each comma, before )) and the four boundaries behind it, "
+            "each with space / tab / block comment / line comment + line break / bare LF / CRLF / line splice / multi-line "
+            "comment on its own (also for lt_macro_shapes); programs compiled with "
             "command-line defines (CompileArgs::defines: used in the entry file and in includes, broken bodies, invalid "
             "defines, redefined / undefined in the source), also 1 in 6 of the generated programs), 105 "
             "single-error programs and the repository's own rejected test inputs; x 4 targets x edits: k in 0..50 whole lines "
@@ -140,7 +150,13 @@ SPEC = {
                   "comment, no / directly before a new /, no swizzled numeric literal (1.xxx) before the insertion. (c) The "
                   "directive state machine of preprocess_included_file is proved to split a token stream into commands and normal "
                   "tokens independently of Whitespace / Comment / PhysicalEndline tokens (partial: what the commands, macro "
-                  "expansion, parser and typer then do is tested only). Constants, format pieces, token tables, the loop shapes "
+                  "expansion, parser and typer then do is tested only). (d) For the scan find_single_macro resumes after an "
+                  "expansion it is proved for all token lists that a replaced region ending in a function-like macro name "
+                  "followed by any white space, line breaks included, has that name found and invoked by a ( behind the "
+                  "region, whatever white space separates them - because the scan starts at the first token of the region "
+                  "(early_function_pos = pos, re-read each run; resumed at the last token the line-break case is lost: "
+                  "witness); C12's agrees_on_higher_order_invocation is audited here for the invoked-by-the-replacement-list "
+                  "half. Constants, format pieces, token tables, the loop shapes "
                   "of block_comment / line_comment, the directive arms and the way command-line defines are loaded (file name, "
                   "contents, offset 0, before the entry file) are re-extracted from the source each run; the models "
                   "are compared with the real SourceManager, MessagePrinter and TokenStream, and with where the real compile() "
@@ -149,8 +165,10 @@ SPEC = {
     "trusted_base": [
         "Lean 4.33 kernel; axioms propext / Classical.choice / Quot.sound only",
         "tools/gens/c14.py: regex extraction of constants, format strings, comment-lexer loop shapes, directive arms and the "
-        "command-line define loader from text/src/location.rs, errors.rs, tokens.rs, preprocess.rs and lexer.rs; tools/gens/c10.py: keyword / operator / "
-        "suffix tables of lexer.rs (Gen.LexTables)",
+        "command-line define loader, and the resume position of the macro scan (early_function_pos of the User arm, the "
+        "start index of find_single_macro, trim_whitespace_end) from text/src/location.rs, errors.rs, tokens.rs, preprocess.rs and lexer.rs; tools/gens/c10.py: keyword / operator / "
+        "suffix tables of lexer.rs (Gen.LexTables); tools/gens/c12.py: Gen.MacroTables (searchPositions, read by "
+        "macro_resume_as_modelled; the C12 theorem cited rests on the rest of it)",
         "hand-written Model/SourceMap.lean (get_file_location / get_file_offset_from_source_location / write_source_for_error / "
         "write_message) and Model/Lexer.lean (C10's byte-level lexer, used unchanged) behind Model/TriviaLexer.lean; tied to "
         "the code by the correspondence run (C14.locate / srcloc / render / lex) on every check",
@@ -168,7 +186,10 @@ SPEC = {
         "apply_single_macro / preprocess_command / Macro::parse): the defined operator with and without parentheses, "
         "#undef of an unknown name, #pragma warning, directives that are not names inside skipped blocks, invalid macro "
         "parameter lists, macro errors in the text in front of a directive or inside macro arguments, function-like macro "
-        "names that are not called, mutually recursive macros; for command-line defines only the position arithmetic is "
+        "names that are not called, mutually recursive macros, higher-order invocations (only the resumed scan of "
+        "find_single_macro is modelled: RTok / scanFrom / resumedScan in Model/Trivia.lean, an abstraction over token kinds "
+        "in which 'fnName' stands for the name of an enabled function-like macro other than the one just expanded; argument "
+        "splitting and substitution are C12's model); for command-line defines only the position arithmetic is "
         "in the model (their text is lexed by the modelled lexer, Macro::parse and expansion are not modelled)",
         "the text of a command-line define is not edited (it is not a file of the program); a request carries it as a "
         "leading pseudo-file `<define>` = `NAME VALUE` and mode `+defs<n>`",
